@@ -10,6 +10,7 @@ Decided statically (E1 layout types + structural pairing rules):
   operands       every binary method uses the values of both operands on the non-scalar path
   result-domain  project/transpose answer in the requested order; binary ops answer over the merged domain
   aggregation-mode  project reduces with the reducer the caller asked for (read once per mode, tests on the mode decided)
+  results-writable    outside expand no read-only broadcast view reaches a returned factor (in-place forms work on derived factors)
   operators-allocate  the non in-place operators / reductions return a table allocated by the call (never an operand or a view of it)
   out-contract   every `x.exp/log/copy(out=y)` call site passes the receiver itself
   axes-primitive Domain.axes is a by-name lookup into the domain's own attribute tuple
@@ -144,6 +145,7 @@ def run(ctx):
     check_out_writes(ctx, methods)
     check_aggregation_mode(ctx, methods['project'])
     check_operators_allocate(ctx)
+    check_results_writable(ctx)
     check_axes_primitive(ctx)
     check_clique_vector(ctx)
     from .C15 import none_tests
@@ -204,6 +206,26 @@ def check_operators_allocate(ctx):
                                          'on some path (a view of) storage of the %s: an in-place update of the result then rewrites the operand' % v),
                construct='ownership of the result of Factor.' + name)
     ctx.floor('operators checked for ownership of their result', n, 8)
+
+
+def check_results_writable(ctx):
+    """In-place variants agree with their pure counterparts also on DERIVED factors: `t = f.transpose(..)` / `f.project(..)` / `a + b`
+    followed by `t += g`, `t *= 2`, `t.exp(out=t)` must work.  `np.broadcast_to` returns a read-only view (also for an unchanged shape), so
+    outside `expand` - whose result is a broadcast by definition - no broadcast view may reach the returned factor (engines/fresh.py)."""
+    from ..engines.fresh import Writability, READONLY
+    W = Writability(ctx.repo)
+    n = 0
+    for (cls, name), fi in W.methods.items():
+        if name in ('expand', '__init__') or name.startswith('_') and not name.startswith('__'):
+            continue
+        n += 1
+        v = W.summary[(cls, name)]
+        ctx.ob('results-writable', fi, fi.node, v != READONLY,
+               'Factor.%s returns %s' % (name, 'a read-only `np.broadcast_to` view (or a view of one): every in-place update of the result '
+                                         '(`+=`, `*=`, `exp(out=)`) raises instead of agreeing with the pure form' if v == READONLY else
+                                         'no broadcast view'),
+               construct='writability of the result of Factor.' + name)
+    ctx.floor('methods checked for a writable result', n, 20)
 
 
 def check_aggregation_mode(ctx, fi):
